@@ -161,6 +161,37 @@ def build_traces(path, tier, seed):
         for k, T in enumerate(grid2):
             add({"kind": "series", "T": enc(T), "xi": enc(xi), "dt": enc(dt), "a": enc_seq(a), "u": enc_seq(u[k]), "v": enc_seq(v[k]), "acc": enc_seq(acc[k])},
                 {"kind": "series", "n": n, "T_over_dt": T / dt, "xi": xi, "dt": dt, "entry": "second call with another interior grid (%d)" % (j % 3), "shape": shape})
+    # the series handed out belong to the caller: whatever the caller does to them (here: overwritten in place), the next call
+    # on the same object / with the same arguments returns the exact solution again
+    import eqsig
+    for j in range(6 if tier == "quick" else 30):
+        n = int(rng.integers(20, 120))
+        a, shape = gen.record(rng, n, amp=1.0)
+        dt = float([0.01, 0.02, 0.005][j % 3])
+        xi = [0.05, 0.0, 0.3, 0.05][int(rng.integers(4))]
+        grid = np.sort(rng.uniform(8, 150, size=3)) * dt
+        o = eqsig.AccSignal(a, dt, response_times=grid.copy()) if j % 2 else eqsig.AccSignal(a, dt)
+        how = j % 3
+        if how == 1:
+            o.response_times = grid.copy()
+
+        def call():
+            if how == 0:
+                return o.response_series(response_times=grid, xi=xi)
+            if j % 2 or how == 1:
+                return o.response_series(xi=xi)              # the object's own periods
+            return sdof.response_series(a, dt, grid, xi)
+        first = call()
+        for arr in first:
+            arr *= 0.0
+            arr += 7.0
+        if j % 4 == 3:
+            call()[0][:] = -1.0
+        u, v, acc = call()
+        per = grid if (how == 0 or j % 2 or how == 1) else grid
+        for k, T in enumerate(per):
+            add({"kind": "series", "T": enc(T), "xi": enc(xi), "dt": enc(dt), "a": enc_seq(a), "u": enc_seq(u[k]), "v": enc_seq(v[k]), "acc": enc_seq(acc[k])},
+                {"kind": "series", "n": n, "T_over_dt": T / dt, "xi": xi, "dt": dt, "entry": "repeated call after the caller overwrote the earlier result (%d)" % how, "shape": shape})
     write_ndjson(path, recs)
     return meta
 
